@@ -660,9 +660,87 @@ func genRingWide(t *rapid.T) Case {
 	return Case{Mode: "ringfloat", Class: "wholewide/long-edge", RingF: ring, PF: [2]model.F{model.Of(px), model.Of(py)}}
 }
 
+// genRingSpan: a sliver or box whose width (or height, or both) is more than the largest
+// float64: its vertices have ordinates beyond 2^1023 of opposite signs, so that the
+// difference of two of them is infinite in float64 while every ordinate is finite. The
+// query point lies on a long edge, level with one, inside, outside, or at a corner.
+func genRingSpan(t *rapid.T) Case {
+	big := func(l string) float64 {
+		return rapid.SampledFrom([]float64{math.MaxFloat64, 0x1p1023, 0x1.8p1023, 0x1.fffffp1023, 0x1p1023 + 0x1p971}).Draw(t, l)
+	}
+	small := func(l string) float64 {
+		return float64(rapid.IntRange(-5, 5).Draw(t, l)) * rapid.SampledFrom([]float64{1, 1, 0.5, 0x1p900, 0x1p-1074}).Draw(t, l+"unit")
+	}
+	x0, x1 := -big("x0"), big("x1")
+	y0 := small("y0")
+	y1 := y0 + float64(rapid.IntRange(1, 9).Draw(t, "h"))*rapid.SampledFrom([]float64{1, 1, 0x1p900}).Draw(t, "hunit")
+	if rapid.IntRange(0, 3).Draw(t, "tall") == 0 {
+		y0, y1 = -big("y0b"), big("y1b")
+	}
+	if y1 == y0 || math.IsInf(y1, 0) {
+		y1 = y0 + 1
+	}
+	ring := [][2]model.F{{model.Of(x0), model.Of(y0)}, {model.Of(x1), model.Of(y0)}, {model.Of(x1), model.Of(y1)}, {model.Of(x0), model.Of(y1)}}
+	if rapid.Bool().Draw(t, "slant") {
+		// a slanted long edge: the top right corner a little higher
+		ring[2][1] = model.Of(y1 + math.Abs(y1-y0)/4)
+		if math.IsInf(ring[2][1].V(), 0) {
+			ring[2][1] = model.Of(y1)
+		}
+	}
+	if rapid.Bool().Draw(t, "rev") {
+		ring[1], ring[3] = ring[3], ring[1]
+	}
+	r := rapid.IntRange(0, 3).Draw(t, "rot")
+	ring = append(append([][2]model.F{}, ring[r:]...), ring[:r]...)
+	ring = append(ring, ring[0])
+	px := rapid.SampledFrom([]float64{0, 1, -3.5, x0, x1, x0 / 2, x1 / 2, 0x1p1000, -0x1p1022}).Draw(t, "px")
+	py := rapid.SampledFrom([]float64{y0, y1, (y0 + y1) / 2, y0 - 1, y1 + 1, y0 + (y1-y0)/4, 0}).Draw(t, "py")
+	if math.IsInf(py, 0) || math.IsNaN(py) {
+		py = 0
+	}
+	return Case{Mode: "ringfloat", Class: "span-beyond-maxfloat", RingF: ring, PF: [2]model.F{model.Of(px), model.Of(py)}}
+}
+
+// genRingSpanSlant: a triangle with a slanted edge from (-m, a) to (m, b), m beyond
+// 2^1023 (the edge's x extent is infinite in float64, its y extent a few units), and a
+// query point on that edge, a quarter of a unit or a hair above or below it, at a
+// quarter, half or three quarters of its length.
+func genRingSpanSlant(t *rapid.T) Case {
+	m := rapid.SampledFrom([]float64{0x1p1023, 0x1.8p1023, math.MaxFloat64 - 0x1p970*3}).Draw(t, "m")
+	// heights in units of 4, 1, 1/4, 2^-10 or 2^-30: with small heights one of the two
+	// products of the orientation determinant stays finite while the other factor's
+	// difference has overflowed; with larger ones both products overflow
+	u := rapid.SampledFrom([]float64{4, 1, 0.25, 0.25, 0x1p-10, 0x1p-30}).Draw(t, "hunit")
+	a := u * float64(rapid.IntRange(-3, 3).Draw(t, "a"))
+	b := a + u*float64(rapid.IntRange(1, 4).Draw(t, "db"))*float64(1-2*rapid.IntRange(0, 1).Draw(t, "bsign"))
+	c := math.Min(a, b) - u*float64(rapid.IntRange(1, 9).Draw(t, "dc"))
+	cx := m
+	if rapid.Bool().Draw(t, "cleft") {
+		cx = -m
+	}
+	tri := [][2]model.F{{model.Of(-m), model.Of(a)}, {model.Of(m), model.Of(b)}, {model.Of(cx), model.Of(c)}}
+	if rapid.Bool().Draw(t, "rev") {
+		tri[1], tri[2] = tri[2], tri[1]
+	}
+	r := rapid.IntRange(0, 2).Draw(t, "rot")
+	ring := append(append([][2]model.F{}, tri[r:]...), tri[:r]...)
+	ring = append(ring, ring[0])
+	q := rapid.SampledFrom([]float64{0.25, 0.5, 0.75}).Draw(t, "at")
+	px := (2*q - 1) * m
+	py := a + q*(b-a) + u*rapid.SampledFrom([]float64{0, 0, 0.25, -0.25, 0x1p-20, -0x1p-20}).Draw(t, "off")
+	return Case{Mode: "ringfloat", Class: "span-beyond-maxfloat/slant", RingF: ring, PF: [2]model.F{model.Of(px), model.Of(py)}}
+}
+
 func genCase(t *rapid.T) Case {
 	if rapid.IntRange(0, 14).Draw(t, "ringwide") == 7 {
 		return genRingWide(t)
+	}
+	if rapid.IntRange(0, 24).Draw(t, "ringspanslant") == 11 {
+		return genRingSpanSlant(t)
+	}
+	if rapid.IntRange(0, 24).Draw(t, "ringspan") == 13 {
+		return genRingSpan(t)
 	}
 	if rapid.IntRange(0, 19).Draw(t, "linelattice") == 11 {
 		return genLineLattice(t)
